@@ -209,6 +209,14 @@ def run(ctx) -> None:
         walk_case(ctx, {"n": 4, "family": "minimum_pass", "values": v0, "computer": comp0, "kind": "walk", "_fresh_budget": [1],
                         "ops": boundcore.make_history(rng, 4, K0, "dirty") + [["compute"], ["compute"]], "_force_fresh": True})
         ctx.count("dirty_histories")
+    # guaranteed minimum: a bulk set (no reset) right after a computation, then compute again
+    for comp0 in ("superadditive_cached", "superadditive", "sam_apx_1", "superadditive_cached"):
+        v0 = gen.sam_game(rng, 4, "sam_int")[0] if comp0.startswith("sam") else gen.sa_game(rng, 4, rng.choice(["int", "int_neg", "float"]))[0]
+        ex0 = gen.explorable(4)
+        rng.shuffle(ex0)
+        walk_case(ctx, {"n": 4, "family": "bulk_set_after_compute", "values": v0, "computer": comp0, "kind": "walk",
+                        "ops": [["set_known", sorted(minimal_masks(4)) + sorted(ex0[:2])], ["compute"], ["bulk_set", sorted(ex0[1:5])], ["compute"],
+                                ["bulk_set", sorted(ex0[4:8])], ["compute"], ["compute"]]})
     for comp in comps:
         fam, values = game_for(rng, 3, comp)
         walk_case(ctx, {"n": 3, "family": fam, "values": values, "computer": comp, "ops": euler_ops(3, rng), "kind": "euler"})
